@@ -233,7 +233,8 @@ func valueTable() []string {
 	// named scalar types: never a documented source type
 	add("(@MyInt)5", "(@MyInt)-9223372036854775808", "(@MyInt8)-128", "(@MyUint16)65535", f64Code("@MyFloat", math.Float64bits(2.5)),
 		f64Code("@MyFloat", 0x7FF8000000000001), f32Code("@MyFloat32", math.Float32bits(1.5)), f32Code("@MyFloat32", 0x7FC00000),
-		`(@MyString)"x"`, `(@MyString)""`, "(@MyBool)t", "(@MyBool)f")
+		`(@MyString)"x"`, `(@MyString)""`, "(@MyBool)t", "(@MyBool)f",
+		`(@JNumber)"5"`, `(@JNumber)"1e3"`, `(@JNumber)"3.75"`, `(@JNumber)"9223372036854775807"`, `(@JNumber)""`, `(@JNumber)"-0"`, `(@JNumber)"abc"`)
 	add(`(string)""`, `(string)"hello"`, `(string)"with space, comma (and) [brackets]"`, `(string)"héllo ✓"`, `(string)"123"`, `(string)"true"`,
 		"(bool)t", "(bool)f")
 	// pointers
